@@ -74,6 +74,11 @@ Theorem C18_as_of_tx_is_own_seq : forall j q, In q (map j_seq j) -> seq_of_tx j 
 Proof. exact seq_of_tx_own. Qed.
 Print Assumptions C18_as_of_tx_is_own_seq.
 
+(* [seq_at_time j t] is the journal scan over CANONICAL instants: [j_time] and [t] are ranks of the one normalized
+   UTC spelling (time::normalize), under which string order is chronological order.  That the engine hands the
+   scan the normalized instant and not the caller's spelling is the generated fact
+   [as_of_time_passes_normalized_instant] (C18_generated_history_shape); the replay checks it on every RFC 3339
+   spelling of an instant. *)
 Theorem C18_as_of_time_stable :
   forall j later t, Forall (fun r => t < j_time r) later -> seq_at_time (j ++ later) t = seq_at_time j t.
 Proof. exact seq_at_time_stable. Qed.
@@ -95,7 +100,8 @@ Theorem C18_generated_history_shape :
   /\ version_row_carries_tx_seq = true
   /\ version_row_recorded_with_put = true
   /\ version_rows_removed_only_by_purge = true
-  /\ seq_allocated_at_begin_plus_one = true.
+  /\ seq_allocated_at_begin_plus_one = true
+  /\ as_of_time_passes_normalized_instant = true.
 Proof. repeat split; reflexivity. Qed.
 Print Assumptions C18_generated_history_shape.
 
@@ -125,7 +131,8 @@ Theorem C18_generated_historical_rechecks :
   /\ proposition_by_id_rechecks_active = true
   /\ structural_source_rechecks_active = true
   /\ historical_path_step_rechecks_active = true
-  /\ historical_path_seed_rechecks_active = true.
+  /\ historical_path_seed_rechecks_active = true
+  /\ historical_matcher_normalizes_only_indexed_keys = true.
 Proof. repeat split; reflexivity. Qed.
 Print Assumptions C18_generated_historical_rechecks.
 
